@@ -229,6 +229,19 @@ func (x *Exec) runUnit(recvList *ast.FieldList, ftype *ast.FuncType, body *ast.B
 				penv.vars["err"] = v
 			}
 		}
+		for _, y := range ct.Yields {
+			// logical variable naming a value of the return state (current values
+			// of locals and parameters, resolved by scope at the end of the body)
+			yenv := x.bodySpecEnv(rs, body)
+			yenv.pos = body.Rbrace - 1
+			for i, o := range fr.results {
+				yenv.vars[o.Name()] = rs.vars[o]
+				yenv.vars[fmt.Sprintf("result%d", i)] = rs.vars[o]
+			}
+			v := x.specEval(rs, y.Expr, yenv)
+			g := x.ghostGet(rs, y.Name)
+			rs.ghost[y.Name] = T{S: v.S, Ty: g.Ty}
+		}
 		for k, e := range ct.Ensures {
 			t := x.specEval(rs, e.Expr, penv)
 			nm := fmt.Sprintf("post#%d@ret%d", k+1, j+1)
@@ -262,7 +275,8 @@ func (x *Exec) runUnit(recvList *ast.FieldList, ftype *ast.FuncType, body *ast.B
 	}
 	// an assert whose anchored call no longer exists cannot be discharged
 	for _, anchor := range sortedKeys(ct.Asserts) {
-		if !x.hitAnchors[anchor] {
+		// (`hint` clauses are proof hints only: they vanish with their call)
+		if !x.hitAnchors[anchor] && ct.RequiredAnchor[anchor] {
 			x.oblige(fr.entry, "assert-anchor-missing:"+anchor, "assert", "false", body)
 		}
 	}
@@ -277,6 +291,9 @@ func (x *Exec) frameObligations(rs *State, fr *fnFrame, ct *Contract, penv *spec
 	ghostOK := map[string]bool{}
 	for _, b := range ct.Binds {
 		ghostOK[b.Name] = true
+	}
+	for _, y := range ct.Yields {
+		ghostOK[y.Name] = true
 	}
 	for _, m := range ct.Modifies {
 		txt := m.Text
